@@ -479,6 +479,11 @@ class Engine(ExprMixin, CallMixin, BuiltinMixin, VerifyMixin):
             if isinstance(v.ty, Set) and core.is_virt(v):
                 v, ax = core.materialize(v)
                 st.assume(*ax)
+            if isinstance(v.ty, (List, Map)) and v.t is not None and not z3.is_const(v.t) and not st.dry:
+                # name compound container terms: keeps terms small and quantifier triggers legal
+                nv = fresh(v.ty, name)
+                st.assume(nv.t == v.t)
+                v = nv
             st.env[name] = v
             st.alias.pop(name, None)
             if value_node is not None and v.ty is not None and isinstance(v.ty, (List, Set, Map)):
